@@ -381,3 +381,44 @@ func IsTimeout(err error) bool {
 func CtxTimeout(d time.Duration) (context.Context, context.CancelFunc) {
 	return context.WithTimeout(context.Background(), d)
 }
+
+// PortOwnedBySelf reports whether a socket bound to addr's port belongs to this process
+// (to tell "the code under test lost track of its own socket" from "another process took the port").
+func PortOwnedBySelf(udp bool, addr string) bool {
+	_, portStr, err := net.SplitHostPort(addr)
+	if err != nil {
+		return false
+	}
+	var port int
+	fmt.Sscanf(portStr, "%d", &port)
+	mine := map[string]bool{}
+	ents, _ := os.ReadDir("/proc/self/fd")
+	for _, e := range ents {
+		if l, err := os.Readlink("/proc/self/fd/" + e.Name()); err == nil && strings.HasPrefix(l, "socket:[") {
+			mine[strings.TrimSuffix(strings.TrimPrefix(l, "socket:["), "]")] = true
+		}
+	}
+	files := []string{"/proc/self/net/tcp", "/proc/self/net/tcp6"}
+	if udp {
+		files = []string{"/proc/self/net/udp", "/proc/self/net/udp6"}
+	}
+	for _, f := range files {
+		b, err := os.ReadFile(f)
+		if err != nil {
+			continue
+		}
+		for i, line := range strings.Split(string(b), "\n") {
+			fs := strings.Fields(line)
+			if i == 0 || len(fs) < 10 {
+				continue
+			}
+			j := strings.LastIndexByte(fs[1], ':')
+			var p int
+			fmt.Sscanf(fs[1][j+1:], "%X", &p)
+			if p == port && mine[fs[9]] {
+				return true
+			}
+		}
+	}
+	return false
+}
